@@ -89,7 +89,7 @@ theorem RunInv.step (P : AesPrims) (hW : P.WF) {σ} (S : Src σ) {L : Nat} (hL :
     cases hvf : v.finalized with
     | false => exact hpass hf hvf
     | true =>
-      have : v' = v := hsame (hR.inv.fin hvf)
+      have : v' = v := hsame (hR.inv.fin hvf) hvf
       rw [this]
       exact hR.passed hvf
 
